@@ -5,21 +5,24 @@
      [ev |-> << [a |-> "Call"|"Succeed"|"Fail"|"Sleep"|"Raise"|"Return"|"CancelSleep",
                  c   |-> class of the injected exception (sequence of flags; Fail only),
                  obs |-> what the three real classifier functions answered for that exception object,
-                 d   |-> virtual milliseconds the helper slept (Sleep only),
+                 d   |-> virtual milliseconds the helper slept (Sleep only; whole: it is a whole number of ms),
                  n   |-> number of invocations of f so far,
                  same|-> the object that left the helper is the one f raised / returned ] , ... >>]
 
    Every event must be a step of Retry with the logged arguments; an event that is not (a retry that should
    have been a raise, a delay outside the band, a second call without a sleep ...) leaves the trace without
    successor: a deadlock with the offending prefix as counter-example.                                      *)
-EXTENDS Retry, Sequences, Json, IOUtils
+EXTENDS Retry, BackoffCheck
 
 Traces == ndJsonDeserialize(IOEnv.TRACE_FILE)
 VARIABLES tid, l
 tvars == <<vars, tid, l>>
 
-ToSet(s) == { s[i] : i \in 1..Len(s) }
+SeqSet(s) == { s[i] : i \in 1..Len(s) }
 Ev == Traces[tid].ev
+
+\* the verdict on the delay-function cases (BackoffCheck) is computed and written when this module is loaded
+ASSUME Verdict
 
 TraceInit == Init /\ tid \in 1..Len(Traces) /\ l = 1
 
@@ -28,10 +31,10 @@ TraceStep ==
   /\ LET e == Ev[l] IN
      /\ \/ e.a = "Call"    /\ Call
         \/ e.a = "Succeed" /\ Succeed
-        \/ e.a = "Fail"    /\ Fail(ToSet(e.c))
+        \/ e.a = "Fail"    /\ Fail(SeqSet(e.c))
                            \* the classifiers of the code agree with the class the table gives the exception
-                           /\ (ToSet(e.c) \notin Abrupt => ToSet(e.obs) = ToSet(e.c))
-        \/ e.a = "Sleep"   /\ Sleep(e.d)
+                           /\ (SeqSet(e.c) \notin Abrupt => SeqSet(e.obs) = SeqSet(e.c))
+        \/ e.a = "Sleep"   /\ Sleep(e.d) /\ e.whole
         \/ e.a = "Raise"   /\ Raise /\ e.same
         \/ e.a = "Return"  /\ Return /\ e.same
         \/ e.a = "CancelSleep" /\ CancelSleep
